@@ -196,6 +196,20 @@ CLAIMS["C37"] = (
     "the last add' is induction over ticks from these contracts (meta-argument). Nonlinear arithmetic (turns * size) is decided by z3 5.1 only.",
     "DESIGN.md section 4, C37")
 
+CLAIMS["C33"] = (
+    "Crypto kernel of the stored-configuration round trip: pkcs5Padding appends padLen = bs - len mod bs bytes, each holding padLen, after "
+    "the unchanged data (any length, any block size 1..255); pkcs5UnPadding is panic-free for EVERY byte string, strips exactly the number of "
+    "bytes its last byte names and fails exactly when that exceeds the length; lemma padRoundTrip: the pad length is 1..bs, completes a block "
+    "and unpadding a padded text of n bytes leaves n bytes -- with the two contracts this is unpad(pad(d)) == d. The ECB block walks "
+    "(encrypter and decrypter, loop invariants) reject partial blocks and short outputs and otherwise hand only whole blocks to the cipher "
+    "(the preconditions under which crypto/aes panics never arise) and write only dst[0:len(src)]; EncryptECB returns len(data)+padLen "
+    "bytes; DecryptECB on any input returns an error or data, never panics.",
+    "Trusted: crypto/aes.NewCipher, cipher.Block.Encrypt/Decrypt (one block in, one block out, mutually inverse: the inverse property is not "
+    "modelled, so 'DecryptECB(EncryptECB(d)) == d' is decided up to the cipher), bytes.Repeat. NOT under contract: base64 / JSON encoding of "
+    "the stored values, the key derivation, and the file-store path confinement (safeJoinPath: filepath / strings library reasoning) -- the "
+    "'stays inside the storage area' half of the property is not decided.",
+    "DESIGN.md section 4, C33")
+
 NA = {
  "C02": "not applicable to contract-based verification here: the oracle is the result of executing SQL on data (what one MySQL holding all shards would return); no contract within reach expresses an SQL execution semantics, and the rewriter is ~3k lines of visitors over TiDB AST types (DESIGN.md section 5)",
  "C06": "not applicable: the property compares a token pre-check with the decision of the yacc-generated parser; the specification is that parser (tables + hand-written lexer), which is outside the verifier's subset (DESIGN.md section 5)",
